@@ -308,6 +308,28 @@ def hyp_lookalike(ctx, n):
     ctx.floor('unblocked-file-looks-blocked', 0.5, 'lookalike')
 
 
+def sweep_record_lengths(ctx):
+    """tables whose rows give records of every length in a window around two and three block payloads (long text cells,
+    one of them one character longer from row to row): through 1014 blocking every alignment of a long record occurs"""
+    scratch = tempfile.mkdtemp(prefix='cardutil-verif-c20-')
+    try:
+        n = 0
+        for codec in ('latin_1', 'cp500'):
+            for name, cols, fixed, var, lengths in (
+                    ('two-blocks', ['MTI', 'DE54', 'DE72'], {'DE72': 'T' * 999}, 'DE54', range(930, 1000)),
+                    ('three-blocks', ['MTI', 'DE54', 'DE72', 'DE111', 'DE127'], {'DE72': 'T' * 999, 'DE54': 'A' * 999, 'DE111': 'C' * 999}, 'DE127', range(1, 71))):
+                config = {'bit_config': PKG['bit_config'], 'output_data_elements': cols}
+                rows = [dict(fixed, MTI='1240', **{var: 'v' * k}) for k in lengths]
+                n += 1
+                ctx.case(key=harness.digest((codec, name)), nontrivial=True, labels=['record-length-sweep', 'codec:' + codec, name])
+                res = check(codec, config, cols, rows, True, scratch, False)
+                if res:
+                    ctx.report(res[0] + ':record-length-sweep', {'codec': codec, 'config': config, 'in_cols': cols, 'rows': rows, 'blocked': True, 'cli': False}, res[1])
+        ctx.enumerated('rows giving records of 70 consecutive lengths around 2 and 3 block payloads, 1014 blocked, latin_1 and cp500')
+    finally:
+        shutil.rmtree(scratch, ignore_errors=True)
+
+
 def tasks(tier, seed):
     full = tier == 'thorough'
     t = []
@@ -318,6 +340,7 @@ def tasks(tier, seed):
     t.append(('hyp_tables', dict(n=2 if not full else 12, cli=False, many=True)))
     t.append(('hyp_tables', dict(n=2 if not full else 12, cli=True, many=True)))
     t.append(('hyp_lookalike', dict(n=25 if not full else 150)))
+    t.append(('sweep_record_lengths', {}))
     return t
 
 
